@@ -35,7 +35,9 @@ NAMES = ["A", "a", "B", "", "1", "A:1", "_A"]      # "_A": a legal mnemonic that
 OPS = [("append", n) for n in NAMES] + [("insert", "first", n) for n in NAMES] + \
       [("del_idx", "first"), ("del_idx", "last")]
 EXTRA_KEYS = ["A", "a", "B", "b", "", "1", "UNKNOWN", "unknown", "A:1", "a:1", "A:2", "Z", "UNKNOWN:1", "_A", "_a", "__A", "_Z"]
-RANDOM_NAMES = ["_A", "__x__", "_", "A B", "É", "é", "x-1", "A.1", "Ünit", "DEPT", "very_long_mnemonic_name_0123456789", "2A", "a b"]
+RANDOM_NAMES = ["_A", "__x__", "_", "A B", "É", "é", "x-1", "A.1", "Ünit", "DEPT", "very_long_mnemonic_name_0123456789", "2A", "a b",
+                "Straße", "STRASSE", "sıcaklık", "SICAKLIK", "\u212a", "K", "k", "ǅ", "ǆ"]      # letters whose upper() and lower() foldings disagree
+FOLD_KEYS = ["Straße", "STRASSE", "strasse", "sıcaklık", "SICAKLIK", "sicaklik", "\u212a", "K", "k", "ǅ", "ǆ", "Ǆ"]
 
 
 def grid(tier):
@@ -43,6 +45,9 @@ def grid(tier):
     for seq in secops.sequences(OPS, L):
         for norm in (False, True):
             yield {"kind": "ops", "ops": seq, "norm": norm}
+    for names in (["Straße", "B"], ["STRASSE", "sıcaklık"], ["\u212a", "A"], ["K", "ǅ"], ["SICAKLIK", "Straße", "k"]):
+        for norm in (False, True):
+            yield {"kind": "ops", "ops": [["append", n] for n in names], "norm": norm}
     files = sorted(glob.glob(os.path.join(env.REPO, "tests", "examples", "**", "*.las"),
                              recursive=True))
     for fn in files:
@@ -162,7 +167,7 @@ def probe_state(ctx, rebuild, norm, tag):
         ctx.count("states_norm_on")
     pick = sessions if n <= 10 else sessions[:3] + sessions[n // 2:n // 2 + 2] + sessions[-3:]
     keys = list(dict.fromkeys(pick + [s.lower() for s in pick] + [s.upper() for s in pick]
-                              + EXTRA_KEYS))
+                              + EXTRA_KEYS + (FOLD_KEYS if any(ord(ch) > 127 or ch in "Kk" for s in sessions for ch in s) else [])))
     int_range = list(range(-n - 1, n + 1)) if n <= 10 else [-n - 1, -n, -n + 1, -1, 0, 1, n // 2, n - 1, n]
     before = snap(items)
     for k in keys:
